@@ -372,7 +372,9 @@ func fixedC14(r *Rec, tier string, shard, nshards int) []*Case {
 			if v == "" {
 				continue
 			}
-			for _, n := range sizes {
+			// a short input cannot stall the sanitiser: a few kilobytes of one repeated token must
+			// stay within the budget too (2000 tokens = 4 KB)
+			for _, n := range append(append([]int{}, sizes...), 400, 1000, 2000) {
 				in := `<p style="` + prop + `: ` + rep(v+" ", n) + `@">x</p>`
 				c := &Case{Kind: "family", Input: BStr(in)}
 				res := timedCall(tokenBudget, func() string { return p.Sanitize(in) })
@@ -404,6 +406,32 @@ func fixedC14(r *Rec, tier string, shard, nshards int) []*Case {
 			}
 			record("structural:css_comma_lists", n, len(in), res.elapsed)
 			r.NonTrivial("f\x00css_comma_lists\x00"+itoa(n), nil)
+		}
+		// ---- runs of white space inside a shorthand value (one scanner token, n empty components for
+		// the handler) and unterminated url( runs (the CSS scanner re-reads the rest of the value at
+		// every url( : quadratic with a large constant, kept at sizes where that is well under a second)
+		for _, fam := range []struct {
+			name string
+			mk   func(n int) string
+			ns   []int
+		}{
+			{"style_space_run_in_shorthand", func(n int) string { return `<p style="font: a` + rep(" ", n) + `a; margin: 1` + rep(" ", n) + `1">x</p>` }, []int{1000, 100000, 1000000}},
+			{"style_unterminated_url_run", func(n int) string { return `<p style="background: ` + rep("url(", n) + `">x</p>` }, []int{100, 500, 2000}},
+		} {
+			for _, n := range fam.ns {
+				in := fam.mk(n)
+				c := &Case{Kind: "family", Input: BStr(in)}
+				res := timedCall(structBudget, func() string { return p.Sanitize(in) })
+				evals++
+				if res.panicked != nil {
+					hardFail(c, r, fmt.Sprintf("C14: Sanitize panics on family %s n=%d: %v", fam.name, n, res.panicked))
+				}
+				if res.timedOut {
+					hardFail(c, r, fmt.Sprintf("C14: Sanitize does not return within %v on family %s n=%d (%d bytes)", structBudget, fam.name, n, len(in)))
+				}
+				record("structural:"+fam.name, n, len(in), res.elapsed)
+				r.NonTrivial("f\x00"+fam.name+"\x00"+itoa(n), nil)
+			}
 		}
 		// ---- URL corners: every URL string of the pools at every src/href/cite position under
 		// policies with and without a rewriter, with and without URL validation
